@@ -171,6 +171,20 @@ fn state_with_bindings(n: usize) -> PushState {
         };
         st.name_bindings.insert(format!("bound{}", k), v);
     }
+    // bait: names that are on the NAME stack but not bound, floats outside [0,1) on the FLOAT
+    // stack, and (every other table size) wide random-number ranges in the configuration: the
+    // leaves of generated code come from the bindings and from [0,1), not from any of these
+    for stale in ["stale-name", "x", "🦀"] {
+        st.name_stack.push(stale.to_string());
+    }
+    st.float_stack.push(7.5);
+    st.float_stack.push(-3.0);
+    if n % 2 == 1 {
+        st.configuration.max_random_float = 100.0;
+        st.configuration.min_random_float = -100.0;
+        st.configuration.max_random_integer = 1000;
+        st.configuration.min_random_integer = -1000;
+    }
     st
 }
 
